@@ -127,7 +127,7 @@ Example ex_counts : match run_scan ex_imports (fst (scan_init ex_roots)) [0; 20]
 Proof. vm_compute. reflexivity. Qed.
 
 (* (b) the shaped and irregular inventories are not empty *)
-Example ex_shaped_count : length shaped_fold_sites = 10%nat /\ length irregular_models = 5%nat /\ length unshaped_fold_sites = 20%nat.
+Example ex_shaped_count : length shaped_fold_sites = 14%nat /\ length irregular_models = 5%nat /\ length unshaped_fold_sites = 16%nat.
 Proof. repeat split; vm_compute; reflexivity. Qed.
 
 (* (c) two chunks that differ (the index carried by a chunk-reference piece) but agree on every hash ingredient *)
